@@ -1,6 +1,7 @@
 package main
 
 import (
+	"time"
 	"fmt"
 	"github.com/cosmos/cosmos-sdk/store/prefix"
 	"reflect"
@@ -13,7 +14,7 @@ import (
 	sdk "github.com/cosmos/cosmos-sdk/types"
 )
 
-func init() { props["C19"] = func(r *Rec) { runC19(r); c08Quorum(r) } }
+func init() { props["C19"] = func(r *Rec) { runC19(r); c19ConcurrentProposals(r); c08Quorum(r) } }
 
 // encS: one token per string — empty string is "~", '%' and ' ' are percent-escaped
 func encS(s string) string {
@@ -580,6 +581,110 @@ func c19Genesis(r *Rec, base *World) {
 				r.Fail("C19/genesis/stored-properties-invalid", fmt.Sprintf("a chain started from a genesis with %s and its stored network properties are invalid: %v", m.name, err), []string{"props genesis " + m.name})
 			} else if got != want {
 				r.Fail("C19/genesis/properties-not-as-requested", fmt.Sprintf("a chain started from a genesis with %s; stored properties differ from the genesis record: got %s want %s", m.name, got, want), []string{"props genesis " + m.name})
+			}
+		}
+	}
+}
+
+// c19ConcurrentProposals: several SetNetworkProperty proposals that are voted on at the same time and enacted in ONE
+// block (the gov EndBlocker drains the enactment queue in a loop): each names one property; afterwards every named property
+// reads back as the value of the LAST proposal that named it, and every other property is what it was.
+func c19ConcurrentProposals(r *Rec) {
+	n := 5
+	if r.Tier == "thorough" {
+		n = 40
+	}
+	type cand struct {
+		id  govtypes.NetworkProperty
+		val func(cur uint64) uint64
+	}
+	cands := []cand{
+		{govtypes.MinTxFee, func(c uint64) uint64 { return c + 200 }},
+		{govtypes.MaxTxFee, func(c uint64) uint64 { return c + 1000000 }},
+		{govtypes.MinIdentityApprovalTip, func(c uint64) uint64 { return c + 7 }},
+		{govtypes.MaxMischance, func(c uint64) uint64 { return c + 3 }},
+		{govtypes.PoorNetworkMaxBankSend, func(c uint64) uint64 { return c + 11 }},
+		{govtypes.UnjailMaxTime, func(c uint64) uint64 { return c + 60 }},
+		{govtypes.MinCustodyReward, func(c uint64) uint64 { return c + 5 }},
+	}
+	for ep := 0; ep < n; ep++ {
+		w := NewWorld(WorldOpts{NAcc: 6, NVal: 3, SudoAccs: []int{5}})
+		k := w.app.CustomGovKeeper
+		ms := govkeeper.NewMsgServerImpl(k)
+		label := fmt.Sprintf("concurrent network-property proposals %d", ep)
+		r.Mark(label)
+		before := npSnapshot(w.KeeperCtx(), k)
+		nProps := 2 + r.Rng.Intn(3)
+		want := map[govtypes.NetworkProperty]uint64{}
+		var order []string
+		submitted := 0
+		br := w.Block(nil, BlockOpts{Mid: func(ctx sdk.Context) {
+			for i := 0; i < nProps; i++ {
+				c := cands[r.Rng.Intn(len(cands))]
+				cur, _ := k.GetNetworkProperty(ctx, c.id)
+				v := c.val(cur.Value) + uint64(i)
+				m, err := govtypes.NewMsgSubmitProposal(w.addrs[5], "t", "d", govtypes.NewSetNetworkPropertyProposal(c.id, govtypes.NetworkPropertyValue{Value: v}))
+				if err != nil {
+					continue
+				}
+				err = withCache(ctx, func(cc sdk.Context) error {
+					res, e := ms.SubmitProposal(sdk.WrapSDKContext(cc), m)
+					if e == nil {
+						_, e = ms.VoteProposal(sdk.WrapSDKContext(cc), govtypes.NewMsgVoteProposal(res.ProposalID, w.addrs[5], govtypes.OptionYes, sdk.ZeroDec()))
+					}
+					return e
+				})
+				if err == nil {
+					submitted++
+					want[c.id] = v
+					order = append(order, fmt.Sprintf("%s:=%d", c.id, v))
+				}
+			}
+		}})
+		if br.Panicked != nil || submitted < 2 {
+			r.Count("concurrent-props:setup-failed")
+			continue
+		}
+		w.ApplyUpdates(br.Updates)
+		halted := false
+		for i := 0; i < 30; i++ {
+			br := w.Block(nil, BlockOpts{Dt: 60 * time.Second})
+			if br.Panicked != nil {
+				halted = true
+				break
+			}
+			w.ApplyUpdates(br.Updates)
+		}
+		if halted {
+			r.Count("concurrent-props:panicked")
+			continue
+		}
+		ctx := w.ReadCtx()
+		allPassed := true
+		ps, _ := k.GetProposals(ctx)
+		for _, p := range ps {
+			if p.Result != govtypes.Passed || p.ExecResult != "executed successfully" {
+				allPassed = false
+			}
+		}
+		r.Count(fmt.Sprintf("concurrent-props:submitted=%d:all-passed=%v", submitted, allPassed))
+		r.Case(label, allPassed)
+		if !allPassed {
+			continue
+		}
+		after := npSnapshot(ctx, k)
+		for _, id := range npIds() {
+			exp, named := before[id], false
+			if v, ok := want[govtypes.NetworkProperty(id)]; ok {
+				exp, named = fmt.Sprintf("%d ~", v), true
+			}
+			if after[id] != exp {
+				what := fmt.Sprintf("%s: proposals %v were all enacted (\"executed successfully\"); property %d reads back %q, expected %q", label, order, id, after[id], exp)
+				if named {
+					r.Fail("C19/proposal/enacted-value-does-not-read-back", what, nil)
+				} else {
+					r.Fail("C19/proposal/frame", what, nil)
+				}
 			}
 		}
 	}
